@@ -123,7 +123,16 @@ func (e *Engine) typeCodeByName(name, pkg string) int {
 	n := strings.TrimPrefix(name, "*")
 	t := e.lookupType(pkg, n)
 	if t == nil {
-		sfail("unknown type %q in typeis()", name)
+		// a type of a package that is not loaded (e.g. "*bytes.Buffer"): the
+		// code of its full type string, which is what typeCode uses
+		e.mu.Lock()
+		defer e.mu.Unlock()
+		if c, ok := e.typeCodes[name]; ok {
+			return c
+		}
+		c := len(e.typeCodes) + 1
+		e.typeCodes[name] = c
+		return c
 	}
 	if ptr {
 		return e.typeCode(types.NewPointer(t))
